@@ -190,4 +190,24 @@ PROPS = {
                        "the declarative ones; tied by the full grid and random diffed instances. The exclusion clause holds for the default name "
                        "(theorem) and fails for a configured name (recorded finding).",
     },
+
+    "C11": {
+        "level": "proof",
+        "lean_modules": ["SqlizeModel.Props.C11"],
+        "theorems": ["Sqlize.C11.sanitize_charset", "Sqlize.C11.nothing_when_empty", "Sqlize.C11.files_written", "Sqlize.C11.read_filter", "Sqlize.C11.read_sorted", "Sqlize.C11.sort_perm"],
+        "suites": [{"name": "files"}],
+        "corr_points": None,
+        "rule": "scratch directories under /verif/.work (removed afterwards): 17 migration names (blanks, dashes, tabs/newlines, path separators, dots, "
+                "unicode, control bytes, empty, digits) x 5 suffix configurations (default, empty down suffix, equal suffixes, custom) x "
+                "{WriteFiles, WriteFilesVersion, WriteFilesWithVersion, both-empty} with a foreign file and a sub-directory present; 5 read cases with "
+                "hidden files, other suffixes, sub-directories, down files, backup files; missing folder for read and write; sequences of 3 writes one "
+                "second apart whose names sort against the write order, reloaded and diffed against the models; one same-second pair. Every case: "
+                "directory listing = model's file set, and the C11 predicate (count, naming [a-z0-9_], header + text, foreign files untouched, read "
+                "set and order). non-trivial = every case; distinct by (name, suffixes, mode)",
+        "trusted_base": COMMON_TB + ["OS behaviour (os.ReadDir sorted by name, os.WriteFile, permissions) and time.Now are modelled, validated only by the runs",
+                                     "regenerated facts: genDescription, emptyMigration, default suffixes"],
+        "assumptions": ["folder exists and is writable unless the case says otherwise", "timestamps of successive writes strictly increase (1 s resolution)"],
+        "explanation": "Proved for all names: sanitised name part is [a-z0-9_]*; file set/contents of writeFiles; ReadPath = filter of the name-sorted "
+                       "listing. OS and clock are outside the proof (partial by nature).",
+    },
 }
